@@ -240,7 +240,7 @@ def compare(ctx, rows, label, stats, doc_sink=None):
         return None
     im, (headers, cells) = impl_compile(rows, ctx.rng)
     if doc_sink is not None and im[0] == "ok":
-        doc_sink.append(im[2])
+        doc_sink.append((im[2], rows, headers, [[c.get(h, "") for h in headers] for c in cells]))
     if m is None:
         return im
     mo = model_compile(m, rows)
